@@ -18,7 +18,7 @@ import sys
 import time
 from fractions import Fraction
 
-ROOT = "/verif"
+ROOT = os.environ.get("VERIF_ROOT", "/verif")
 COQ = os.path.join(ROOT, "coq")
 REPO = os.environ.get("VERIF_REPO", "/repo").rstrip("/")
 WORKROOT = os.path.join(ROOT, "_work")
